@@ -415,6 +415,29 @@ def run(chk):
         if any(not isinstance(t[2], (str, type(None))) for t in g.triples):
             continue
         graph_cases.append(('decoded', (name, tbl, live, g), (node, meta)))
+    # deep decoded graphs: chains 4-8 levels deep whose innermost nodes are ALSO referenced from outer nodes
+    # (several node contexts close together; a new top deep inside leaves POPs behind)
+    for i in range(150 if quick else 1500):
+        depth = rng.randint(4, 8)
+        vs = gen.fresh_vars()[:depth]
+        node = (vs[-1], [('/', 'z%d' % depth)] + ([(':op1', 'k')] if rng.random() < .5 else []))
+        for lvl in range(depth - 2, -1, -1):
+            bs = [('/', 'z%d' % lvl)]
+            if rng.random() < .7:      # reference to a deeper node BEFORE the nested chain
+                bs.append((rng.choice([':ARG2', ':ARG3-of', ':mod']), rng.choice(vs[lvl + 1:])))
+            bs.append((rng.choice([':ARG0', ':ARG1', ':ARG1-of']), node))
+            if rng.random() < .4:
+                bs.append((rng.choice([':ARG2', ':quant']), rng.choice(vs[lvl + 1:] + ['7'])))
+            node = (vs[lvl], bs)
+        name, tbl, live = rng.choice([tb for tb in tables if not tb[1]['noop']][:2])
+        m = models.impl_model(tbl, live_amr=live)
+        try:
+            g = layout.interpret(Tree(node), m)
+        except Exception:      # noqa
+            continue
+        if len(set(g.triples)) != len(g.triples):
+            continue
+        graph_cases.append(('decoded-deep', (name, tbl, live, g), (node, {})))
     for i in range(500 if quick else 5000):
         V, triples = gen.random_connected_graph(rng, with_numbers=(rng.random() < .3),
                                                 roles=[':ARG0', ':ARG1', ':op1', ':op2', ':op10', ':mod', ':quant'])
